@@ -104,6 +104,9 @@ impl MT210 {
             }
         }
 
+        // Verify all content is consumed
+        verify_parser_complete(&parser)?;
+
         Ok(MT210 {
             transaction_reference,
             account_identification,
